@@ -299,6 +299,7 @@ func checkC05(p *Program, r *Report) {
 	wrapperKindsAgree(p, r, m, "C05.R6")
 	c05NoIdentityShortcut(p, r, m)
 	c05UnaryStaysInteger(p, r, m)
+	c05KindSwitchComplete(p, r, m)
 	accessorKindAgreement(p, r, m, "C05.R8")
 }
 
@@ -1003,5 +1004,70 @@ func c05UnaryStaysInteger(p *Program, r *Report, m *vmModel) {
 	}
 	if n == 0 {
 		r.Undecided("C05.R9", "UnaryExpr|kind switch", p.Pos(h.Pos()), "no kind switch with an integer arm found in the unary handler")
+	}
+}
+
+// c05KindSwitchComplete (R6): a switch over the kind of one value that has arms for some of the signed integer kinds has arms for
+// all five (Int, Int8, Int16, Int32, Int64), and likewise for the unsigned ones (Uint .. Uint64) and the two float kinds: a kind
+// left out of the list falls into the default arm and is treated as "not a number of that class" (a host int on the left of `+`
+// is then added as an integer to a float or a string).
+func c05KindSwitchComplete(p *Program, r *Report, m *vmModel) {
+	classes := []struct {
+		name  string
+		kinds []int64
+	}{{"signed integer", []int64{2, 3, 4, 5, 6}}, {"unsigned integer", []int64{7, 8, 9, 10, 11}}, {"float", []int64{13, 14}}}
+	n := 0
+	fns := m.fns
+	if csp := p.SSAPkg("core"); csp != nil {
+		fns = append(append([]*ssa.Function{}, fns...), SrcFuncs(csp)...)
+	}
+	for _, fn := range fns {
+		atoms := map[ssa.Value]map[int64]bool{}
+		var order []ssa.Value
+		for _, b := range fn.Blocks {
+			for _, in := range b.Instrs {
+				bo, ok := in.(*ssa.BinOp)
+				if !ok || bo.Op != token.EQL {
+					continue
+				}
+				kc := bo.X
+				if kc.Type().String() != "reflect.Kind" {
+					continue
+				}
+				k, ok := bo.Y.(*ssa.Const)
+				if !ok {
+					continue
+				}
+				if atoms[kc] == nil {
+					atoms[kc] = map[int64]bool{}
+					order = append(order, kc)
+				}
+				atoms[kc][k.Int64()] = true
+			}
+		}
+		k := 0
+		for _, kc := range order {
+			for _, cl := range classes {
+				have := 0
+				var missing []string
+				for _, K := range cl.kinds {
+					if atoms[kc][K] {
+						have++
+					} else {
+						missing = append(missing, kindName(K))
+					}
+				}
+				if have < 2 || (len(cl.kinds) > 2 && have < 3) {
+					continue // one or two kinds picked on purpose (Int64 alone, Float64 alone)
+				}
+				k++
+				n++
+				r.Check(len(missing) == 0, "C05.R6", fmt.Sprintf("%s|kind switch #%d covers the %s kinds", funcName(fn), k, cl.name), p.Pos(kc.Pos()), "all kinds of the class have an arm",
+					fmt.Sprintf("the switch has arms for %d of the %s kinds but not for %v: a value of that kind takes the default arm and is not treated as a number of its class", have, cl.name, missing))
+			}
+		}
+	}
+	if n < 8 {
+		r.Undecided("C05.R6", "kind switches", "vm", fmt.Sprintf("only %d kind switches over a numeric class found", n))
 	}
 }
